@@ -309,6 +309,7 @@ pub struct VWorker {
     pub resources: Vec<u64>,
     pub blocked: Vec<(u32, u32)>,
     pub stopping: bool,
+    pub free: bool,
     pub group: String,
 }
 
@@ -619,7 +620,7 @@ impl Sim {
                 };
                 let mut blocked: Vec<(u32, u32)> = w.blocked_requests.iter().map(|(a, b)| (a.as_num(), b.as_num() as u32)).collect();
                 blocked.sort();
-                VWorker { id: w.id, sn, mn, resources: res(&w.resources), blocked, stopping: w.is_stopping(), group: w.configuration.group.clone() }
+                VWorker { id: w.id, sn, mn, resources: res(&w.resources), blocked, stopping: w.is_stopping(), free: w.is_free(), group: w.configuration.group.clone() }
             })
             .collect();
         workers.sort_by_key(|w| w.id);
